@@ -850,6 +850,22 @@ func withoutTombstoned(directory string, keys []dns.RR) []dns.RR {
 		zlog.Error("Trust anchor tombstones file corrupted or unreadable — starting with an empty trust set", "path", tombstonePath, "error", err.Error())
 		return []dns.RR{}
 	}
+	// While a tombstone write keeps failing, the StateRevoked marker in
+	// the state file is the only record of a revocation: honour it too.
+	state, err := readFromTAFile(filepath.Join(directory, stateFile))
+	if err != nil && !os.IsNotExist(err) {
+		zlog.Error("Trust anchor state file corrupted or unreadable — starting with an empty trust set", "error", err.Error())
+		return []dns.RR{}
+	}
+	for _, ta := range state {
+		if ta.State == StateRevoked || ta.State == StateRemoved {
+			if fp := dnskeyMaterialFP(ta.DNSKey); fp != "" {
+				if _, exists := tombstones[fp]; !exists {
+					tombstones[fp] = &Tombstone{DNSKey: ta.DNSKey, FirstSeen: ta.FirstSeen}
+				}
+			}
+		}
+	}
 	out := make([]dns.RR, 0, len(keys))
 	for _, rr := range keys {
 		if dnskey, ok := rr.(*dns.DNSKEY); ok {
